@@ -247,8 +247,9 @@ def stepCut (evs : List (Option Event)) (ws : List String) (impl : String) : Str
       -- guard of the sub-millisecond finding: an event with a sub-millisecond timestamp before the cut
       let subms := (evs.take (k.toNat?.getD 0)).any fun oe => match oe with | some e => !e.whole | none => false
       -- guard of the sliding count finding: the program has a plain sliding count window (generator tag)
-      -- and the checkpoint holds a non-partitioned window buffer
-      let plainBuf := c.windowStates.any fun kv => !kv.2.events.isEmpty && kv.2.partitions.isEmpty
+      -- and the checkpoint holds a non-partitioned window state (its buffer may still be empty: with
+      -- slide > size a fresh window starts its counter at slide - size, a restored one at 0)
+      let plainBuf := c.windowStates.any fun kv => kv.2.partitions.isEmpty
       if impl == "same" then
         (if premisesHold c then "ok" else "DIFF a structural premise of engine_restore does not hold of this engine state")
       else
@@ -439,7 +440,10 @@ def step (st : St) (line : String) : St × String :=
   | ["new"] => ({}, "")
   | ["wcfg", kind, dur, slide, n, m] =>
     match freshOfKind kind, dur.toInt?, slide.toInt?, n.toNat?, m.toNat? with
-    | some w, some d, some sl, some n, some m => ({ cfg := { dur := d, slide := sl, n := n, m := m }, a := some w, b := none, wkind := kind }, "")
+    | some w, some d, some sl, some n, some m =>
+      -- a freshly constructed sliding count window starts its counter at `slide - size`
+      let w := match w with | .slidingCount _ => .slidingCount (SlidingCountSt.fresh n m) | w => w
+      ({ cfg := { dur := d, slide := sl, n := n, m := m }, a := some w, b := none, wkind := kind }, "")
     | _, _, _, _, _ => (st, "BADLINE")
   | "wadd" :: ws =>
     match (parseWhole ws).bind decEventL with
@@ -462,7 +466,9 @@ def step (st : St) (line : String) : St × String :=
   | "prog" :: _ => (st, "")
   | ["wspec", name, kind, dur, slide, n, m] =>
     match freshOfKindE kind, dur.toInt?, slide.toInt?, n.toNat?, m.toNat? with
-    | some w, some d, some sl, some n, some m => ({ st with wspec := some (name, w, { dur := d, slide := sl, n := n, m := m }) }, "")
+    | some w, some d, some sl, some n, some m =>
+      let w := match w with | .slidingCount _ => .slidingCount (SlidingCountSt.fresh n m) | w => w
+      ({ st with wspec := some (name, w, { dur := d, slide := sl, n := n, m := m }) }, "")
     | _, _, _, _, _ => (st, "BADLINE")
   | "op" :: "ev" :: ws =>
     match (parseWhole ws).bind decEventL with
